@@ -35,6 +35,7 @@ func init() {
 	sim.RegisterKind("pipe-close", "C16")
 	sim.RegisterKind("server-wedged", "C16", "C18", "C06")
 	sim.RegisterKind("alloc-expiry-late", "C06", "C16")
+	sim.RegisterKind("alloc-expiry-early", "C06")
 	sim.RegisterKind("ledger-open-after-death", "C15", "C06", "C16")
 	sim.RegisterKind("client-tcp", "C16", "C13")
 	sim.RegisterKind("conn-open-after-death", "C15", "C16")
